@@ -1026,6 +1026,8 @@ def run_parts(run, parts, only=None, pendings=1, kinds=None, mandatory=True):
     if "rulebuilder" in parts:
         res = rulebuilder_obligations(run, prog, run.tier, only=only)
         finish_rulebuilder(run, helper, res, mandatory)
+        res = rule_parse_obligations(run, prog, run.tier, only=only)
+        finish_rulebuilder(run, helper, res, mandatory, text_of=rule_parse_text)
     if "conversions" in parts:
         res = conversion_obligations(run, prog, run.tier, only=only)
         finish_convert(run, helper, res, mandatory)
@@ -1696,7 +1698,7 @@ def rulebuilder_scenario(info, cex):
     return "\n".join(lines + items + ["i1"])
 
 
-def finish_rulebuilder(run, helper, res, mandatory=True):
+def finish_rulebuilder(run, helper, res, mandatory=True, text_of=None):
     """Native replay: the model becomes rule TEXT for the real Rule::parse; a reference implementation of the statement (below) computes the
     expected name / metadata from the same model; VIOLATION only if the real parser's answer differs."""
     from .e3replay import Unrealisable
@@ -1707,7 +1709,7 @@ def finish_rulebuilder(run, helper, res, mandatory=True):
                 if cex["case"] in seen:
                     continue
                 try:
-                    text = rulebuilder_scenario(info, cex)
+                    text = (text_of or rulebuilder_scenario)(info, cex)
                 except Unrealisable as e:
                     notes.append(f"{cex['case']}: {e}")
                     continue
@@ -1741,7 +1743,7 @@ def reference_rule(text):
     returns the helper's `rule` output format."""
     import json as _json
     import re as _re
-    comments = [l[2:].strip() for l in text.split("\n") if l.startswith("//")]
+    comments = [l.lstrip()[2:].strip() for l in text.split("\n") if l.lstrip().startswith("//")]
     items = _re.findall(r"^@([a-z_][a-z0-9_]*): (.*);$", text, _re.M)
 
     def const(t):
@@ -1811,3 +1813,159 @@ def split_top_level(s):
     if "".join(cur).strip():
         out.append("".join(cur))
     return out
+
+
+# ================================================================================================ C14: Rule::parse - comment lines and the glue around the builder
+str_trim_start = z3.Function("str_trim_start", z3.StringSort(), z3.StringSort())
+str_trim = z3.Function("str_trim", z3.StringSort(), z3.StringSort())
+meta_has = z3.Function("meta_has", z3.StringSort(), z3.BoolSort())
+meta_at = z3.Function("meta_at", z3.StringSort(), VAL)
+PARSE_ERR_TEXT = z3.String("parse.error.text")
+
+
+class ParseWorld(World):
+    """Rule::parse with the generated parser as an oracle: it either fails (opaque error) or returns a RuleBuilder with an arbitrary
+    optional @name, an arbitrary metadata table and the parsed expression. The input text is a list of symbolic lines."""
+
+    def __init__(self, prog, nlines):
+        super().__init__(prog, record_ops=False)
+        self.nlines = nlines
+
+    def begin(self, ex):
+        super().begin(ex)
+        self.lines = [z3.String(f"line{i}") for i in range(self.nlines)]
+        self.text = Obj("text", "input")
+
+    def abs_map_has(self, ex, kind, mid, key):
+        if kind == "meta":
+            return meta_has(key.t)
+        return super().abs_map_has(ex, kind, mid, key)
+
+    def abs_map_at(self, ex, kind, mid, key):
+        if kind == "meta":
+            return SymVal(meta_at(key.t))
+        return super().abs_map_at(ex, kind, mid, key)
+
+    def override(self, ex, callee, args):
+        from .mir.symex import IterV
+        b = callee.split("::<")[0]
+        if re.match(r"core::str::<impl str>::lines$", callee):
+            t = std.deref_all(ex, args[0])
+            if isinstance(t, Obj) and t.kind == "text":
+                return IterV("list", [Str(l) for l in self.lines], 0)
+            raise Unsupported("lines() of a string that is not the input text")
+        m = re.match(r"core::str::<impl str>::(trim_start|trim|strip_prefix)", callee)
+        if m:
+            s = std.as_str(ex, args[0])
+            if m.group(1) == "trim_start":
+                return Str(str_trim_start(s.t))
+            if m.group(1) == "trim":
+                return Str(str_trim(s.t))
+            p = std.as_str(ex, args[1])
+            if ex.choose([(True, z3.PrefixOf(p.t, s.t)), (False, z3.Not(z3.PrefixOf(p.t, s.t)))], "strip-prefix"):
+                return std.some(Str(z3.SubString(s.t, z3.Length(p.t), z3.Length(s.t) - z3.Length(p.t))))
+            return std.NONE()
+        if b.endswith("RuleParser::new"):
+            return Obj("parser", 0)
+        if b.endswith("RuleParser::parse"):
+            t = std.deref_all(ex, args[-1])
+            if not (isinstance(t, Obj) and t.kind == "text"):
+                raise Unsupported("the parser is not applied to the input text")
+            if ex.choose([("ok", z3.Bool("parser.ok")), ("err", z3.Not(z3.Bool("parser.ok")))], "parser-result") == "err":
+                return std.err(Opq("ParseError", None))
+            nm = std.some(Str(z3.String("meta.name"))) if ex.choose([(True, z3.Bool("meta.has.name")), (False, z3.Not(z3.Bool("meta.has.name")))], "meta-name") else std.NONE()
+            return std.ok(Agg("RuleBuilder", None, {0: nm, 1: leaf("parsed"), 2: MapV([("abs", "meta", 0)])}))
+        if callee.startswith("<parse::reval::__lalrpop_util::ParseError<") and "::to_string" in callee:
+            return Str(PARSE_ERR_TEXT)
+        return super().override(ex, callee, args)
+
+
+def rule_parse_obligations(run, prog, tier, only=None):
+    import itertools
+    out = []
+    Ls = (0, 1, 2, 3) if tier == "quick" else (0, 1, 2, 3, 4)
+    TWO = z3.StringVal("//")
+    for L_ in Ls:
+        oid = f"rule_parse_{L_}_lines"
+        if only and only not in oid:
+            continue
+        world = ParseWorld(prog, L_)
+        lines = [z3.String(f"line{i}") for i in range(L_)]
+        ts = [str_trim_start(l) for l in lines]
+        iscom = [z3.PrefixOf(TWO, t) for t in ts]
+        content = [str_trim(z3.SubString(t, 2, z3.Length(t) - 2)) for t in ts]
+
+        def body(ex, world=world, content=content):
+            simple = z3.Star(z3.Union(z3.Range("a", "z"), z3.Re(" ")))
+            trimmed = z3.Option(z3.Concat(z3.Range("a", "z"), z3.Option(z3.Concat(simple, z3.Range("a", "z")))))
+            for c in content:
+                ex.assume(z3.InRe(c, trimmed))          # what trim returns has no surrounding white space (bound: [a-z ] texts)
+            ex.assume(z3.InRe(z3.String("meta.name"), z3.Concat(z3.Range("a", "z"), z3.Star(z3.Range("a", "z")))))
+            r = ex.call(None, "ruleset::rule::Rule::parse", [world.text])
+            return r
+        cases = []
+        for pattern in itertools.product([False, True], repeat=L_):
+            g = [iscom[i] if pattern[i] else z3.Not(iscom[i]) for i in range(L_)]
+            coms = [content[i] for i in range(L_) if pattern[i]]
+            lab = "".join("C" if p else "-" for p in pattern) or "none"
+            cases.append(Case(f"{lab}/parser-fails", z3.And(g + [z3.Not(z3.Bool("parser.ok"))]), None,
+                              lambda ex, r: isinstance(r, Agg) and r.ty == "Result" and r.variant == "Err" and isinstance(r.fields[0], Agg)
+                              and r.fields[0].variant == "RuleParseError" and isinstance(r.fields[0].fields.get(0), Str) and (r.fields[0].fields[0].t == PARSE_ERR_TEXT)))
+            for hasn, hasd in itertools.product([False, True], repeat=2):
+                gg = g + [z3.Bool("parser.ok"), z3.Bool("meta.has.name") if hasn else z3.Not(z3.Bool("meta.has.name")),
+                          meta_has(DESC_K) if hasd else z3.Not(meta_has(DESC_K))]
+                name = z3.String("meta.name") if hasn else (coms[0] if coms else None)
+                desc = None
+                if len(coms) > 1 and not hasd:
+                    parts = []
+                    for j, c in enumerate(coms[1:]):
+                        if j:
+                            parts.append(z3.StringVal("\n"))
+                        parts.append(c)
+                    desc = z3.Concat(*parts) if len(parts) > 1 else parts[0]
+
+                def chk(ex, r, name=name, desc=desc):
+                    if name is None:
+                        return isinstance(r, Agg) and r.ty == "Result" and r.variant == "Err" and isinstance(r.fields[0], Agg) and r.fields[0].variant == "MissingRuleName"
+                    if not (isinstance(r, Agg) and r.ty == "Result" and r.variant == "Ok"):
+                        return False
+                    rule = r.fields[0]
+                    if not (isinstance(rule, Agg) and rule.ty == "Rule" and isinstance(rule.fields.get(2), Obj) and rule.fields[2].key == "parsed"):
+                        return False
+                    md = rule.fields[1]
+                    if not (isinstance(md, MapV) and md.layers and md.layers[0][0] == "abs"):
+                        return False
+                    kv = [l for l in md.layers if l[0] == "kv"]
+                    if len(md.layers) != 1 + len(kv) or len(kv) != (1 if desc is not None else 0):
+                        return False
+                    cs = [rule.fields[0].t == name]
+                    if desc is not None:
+                        cs += [kv[0][1].t == DESC_K, ex.to_val(kv[0][2]) == VAL.String(desc)]
+                    return z3.And(cs)
+                cases.append(Case(f"{lab}/{'@name' if hasn else '-'}/{'@description' if hasd else '-'}", z3.And(gg), None, chk))
+        d = check_paths(run, prog, world, oid, body, cases, "rule-parse", meta={"lines": L_}, mandatory_cases=[], max_paths=6000)
+        out.append((d, {"lines": L_}))
+    return out
+
+
+def rule_parse_text(info, cex):
+    """The model as rule text: comment lines carry the model's contents, other lines are blank; the oracle parser's answer is realised by
+    the trailing @name / @description items and the expression."""
+    from .e3replay import Concretizer
+    C = Concretizer(cex["_model"])
+    L_ = info["lines"]
+    out = []
+    for i in range(L_):
+        t = str_trim_start(z3.String(f"line{i}"))
+        if C.boolean(z3.PrefixOf(z3.StringVal("//"), t)):
+            out.append("// " + C.string(str_trim(z3.SubString(t, 2, z3.Length(t) - 2))) + " ")
+        else:
+            out.append("")
+    if not C.boolean(z3.Bool("parser.ok")):
+        return "\n".join(out + ["i1 i1"])
+    if C.boolean(z3.Bool("meta.has.name")):
+        out.append(f'@name: "{C.string(z3.String("meta.name"))}";')
+    if C.boolean(meta_has(DESC_K)):
+        v = C.value(meta_at(DESC_K))
+        out.append("@description: " + ('"' + v["v"] + '"' if v["t"] == "String" and re.match(r"^[a-z ]*$", v["v"]) else "i5") + ";")
+    return "\n".join(out + ["i1"])
